@@ -121,12 +121,16 @@ def history(task):
                                 ents.append([rng.randint(1, 3), last + 1 + j, kind, 'cmd-%d' % seq[0] if kind == 'normal' else ([[1, 2, 3][:rng.randint(1, 3)]] if kind == 'membership' else None)])
                             op = {'op': 'store_append', 'entries': [[e[0], e[1], e[2], (e[3][0] if e[2] == 'membership' else e[3])] for e in ents]}
                             op_model = {'op': 'store_append', 'entries': [[e[0], e[1], e[2], (e[3] if e[2] != 'membership' else e[3])] for e in ents]}
-                        elif k == 'truncate' and M.log:
-                            i0 = rng.choice(sorted(M.log))
-                            op = op_model = {'op': 'store_truncate', 'term': M.log[i0][0], 'index': i0}
-                        elif k == 'purge' and M.log:
-                            i0 = rng.choice(sorted(M.log))
-                            op = op_model = {'op': 'store_purge', 'term': M.log[i0][0], 'index': i0}
+                        elif k in ('truncate', 'purge'):
+                            # also ids the store holds no entry for: a purge point beyond the local log (follower that installed a snapshot),
+                            # a purge on an empty / fully purged log, a truncation behind the end
+                            held = sorted(M.log)
+                            cands = held + [last + 1, last + rng.randint(2, 12)] + ([0] if k == 'truncate' else [])
+                            i0 = rng.choice(cands) if rng.random() < 0.5 or not held else rng.choice(held)
+                            term = M.log[i0][0] if i0 in M.log else rng.randint(1, 4)
+                            op = op_model = {'op': 'store_' + k, 'term': term, 'index': i0}
+                            if i0 not in M.log:
+                                stat('store_op_on_id_not_held')
                         elif k == 'vote':
                             op = op_model = {'op': 'save_vote', 'term': rng.randint(1, 9), 'node': rng.randint(1, 3), 'committed': rng.random() < 0.5}
                         else:
@@ -157,14 +161,14 @@ def history(task):
 RULE = ('histories of 2-5 process lifetimes over one store directory; every lifetime is a fresh worker process, ended by a clean exit or by SIGKILL between two operations '
         'or while an append is in flight (35 % of the lifetimes); layer 1: 3-14 WriteAheadLog::append calls per lifetime (records of 10 B - 5 KiB, flush interval 0 = '
         'SyncEach or 100 ms), oracle on every reopen: read_all() returns exactly all acknowledged records in order, plus at most the one in flight at a kill; layer 2: '
-        'WalLogStore append (normal / blank / membership entries) / truncate / purge / save_vote / save_committed, oracle on every reopen: get_log_state, read_vote, '
+        'WalLogStore append (normal / blank / membership entries) / truncate / purge (also of ids the store holds no entry for: beyond the local log, on an empty log) / save_vote / save_committed, oracle on every reopen: get_log_state, read_vote, '
         'read_committed and try_get_log_entries(..) equal a model of those five operations. non-trivial = history with >= 1 reopen check after acknowledged operations')
 
 def run(tier, seed, budget):
     q = tier == 'quick'
     rep = Report('C21', tier, seed, 'exploration')
     rep.rule = RULE
-    rep.required = {'histories': 40, 'reopen_checks': 100, 'records_acknowledged': 200, 'store_ops_acknowledged': 200, 'killed_between_ops': 5}
+    rep.required = {'histories': 40, 'reopen_checks': 100, 'records_acknowledged': 200, 'store_ops_acknowledged': 200, 'killed_between_ops': 5, 'store_op_on_id_not_held': 10}
     rep.assumptions = STANDINS
     binary = common.build('oct', 'debug')
     tasks = [{'binary': binary, 'seed': seed, 'idx': i, 'layer': 1 + i % 2} for i in range(80 if q else 2000)]
